@@ -185,6 +185,20 @@ func guard(f func() string) (res string) {
 	}
 }
 
+var langByName = map[string]bip39.Language{
+	"ChineseSimplified": bip39.ChineseSimplified, "ChineseTraditional": bip39.ChineseTraditional,
+	"English": bip39.English, "French": bip39.French, "Italian": bip39.Italian, "Japanese": bip39.Japanese,
+	"Korean": bip39.Korean, "Spanish": bip39.Spanish, "Czech": bip39.Czech, "Portuguese": bip39.Portuguese,
+}
+
+// lang resolves a language field: the identifier of an exported constant, or a decimal value.
+func lang(s string) bip39.Language {
+	if l, ok := langByName[s]; ok {
+		return l
+	}
+	return bip39.Language(atoi(s))
+}
+
 func atoi(s string) int {
 	v, err := strconv.ParseInt(s, 10, 64)
 	if err != nil {
@@ -206,7 +220,7 @@ func runOp(f []string) string {
 			snap = append([]byte{}, ent...)
 		}
 		return guard(func() string {
-			s, err := bip39.NewMnemonicByEntropy(ent, bip39.Language(atoi(f[1])))
+			s, err := bip39.NewMnemonicByEntropy(ent, lang(f[1]))
 			r := strErr(s, err)
 			if !bytes.Equal(snap, ent) {
 				r += " MUTATED-ENTROPY"
@@ -220,7 +234,7 @@ func runOp(f []string) string {
 			defer swapMu.Unlock()
 			old := bip39.VerifSwapRandSource(rd)
 			defer bip39.VerifSwapRandSource(old)
-			s, err := bip39.NewMnemonic(atoi(f[1]), bip39.Language(atoi(f[2])))
+			s, err := bip39.NewMnemonic(atoi(f[1]), lang(f[2]))
 			rs := "0"
 			if rd.reads > 0 {
 				rs = "1"
@@ -229,7 +243,7 @@ func runOp(f []string) string {
 		})
 	case "C":
 		s := string(unhex(f[2]))
-		lang := bip39.Language(atoi(f[1]))
+		lang := lang(f[1])
 		c := guard(func() string { return errClass(bip39.CheckMnemonic(s, lang)) })
 		v := guard(func() string {
 			if bip39.IsMnemonicValid(s, lang) {
@@ -240,7 +254,7 @@ func runOp(f []string) string {
 		return c + " valid=" + v
 	case "V":
 		s := string(unhex(f[2]))
-		lang := bip39.Language(atoi(f[1]))
+		lang := lang(f[1])
 		return "valid=" + guard(func() string {
 			if bip39.IsMnemonicValid(s, lang) {
 				return "1"
@@ -264,7 +278,7 @@ func runOp(f []string) string {
 			return r
 		})
 	case "L":
-		return guard(func() string { return "ok " + hx([]byte(bip39.Language(atoi(f[1])).String())) })
+		return guard(func() string { return "ok " + hx([]byte(lang(f[1]).String())) })
 	// ---- dependency streams
 	case "H":
 		h := sha256.Sum256(unhex(f[1]))
@@ -309,7 +323,7 @@ func runOp(f []string) string {
 		cnt := atoi(f[3])
 		for i := 0; i < cnt; i++ {
 			r := guard(func() string {
-				s, err := bip39.NewMnemonic(atoi(f[1]), bip39.Language(atoi(f[2])))
+				s, err := bip39.NewMnemonic(atoi(f[1]), lang(f[2]))
 				return strErr(s, err)
 			})
 			if i > 0 {
@@ -339,7 +353,7 @@ func runHistory(line string) string {
 			if ent != nil {
 				h := held{buf: ent, snap: append([]byte{}, ent...)}
 				helds = append(helds, h)
-				lang := bip39.Language(atoi(f[1]))
+				lang := lang(f[1])
 				r := guard(func() string {
 					s, err := bip39.NewMnemonicByEntropy(h.buf, lang)
 					if err == nil {
